@@ -70,6 +70,11 @@ fn consume_image(bytes: &Vec<u8>,hint: Option<&str>) -> String {
 }
 
 pub fn with_watchdog<F: FnOnce() -> String + Send + 'static>(f: F) -> String {
+    let secs = std::env::var("A2V_WATCHDOG").ok().and_then(|v| v.parse::<u64>().ok()).unwrap_or(8);
+    with_watchdog_secs(secs,f)
+}
+
+pub fn with_watchdog_secs<F: FnOnce() -> String + Send + 'static>(secs: u64,f: F) -> String {
     let (tx,rx) = mpsc::channel();
     std::thread::spawn(move || {
         let r = catch_unwind(AssertUnwindSafe(f));
@@ -79,7 +84,6 @@ pub fn with_watchdog<F: FnOnce() -> String + Send + 'static>(f: F) -> String {
                         format!("FAIL panic: {}",msg.replace('\n'," ")) }
         });
     });
-    let secs = std::env::var("A2V_WATCHDOG").ok().and_then(|v| v.parse::<u64>().ok()).unwrap_or(8);
     match rx.recv_timeout(Duration::from_secs(secs)) {
         Ok(s) => s,
         Err(_) => format!("FAIL hang: no result within {} s",secs)
@@ -148,6 +152,32 @@ pub fn run(toks: &[&str]) -> String {
             let hint = if rng.below(3)==0 { None } else { Some(ext_of(&label)) };
             let r = with_watchdog(move || consume_image(&bytes,hint));
             format!("{} [{}]",r,what)
+        },
+        "fields" => {
+            // malform id fields seed fs label base span : every byte of [base,base+span) of a valid raw image set to each boundary value
+            // in turn (single-field corruption of boot sectors, volume headers, directories); every variant must mount-or-refuse
+            let fs = toks[4].to_string(); let label = toks[5].to_string();
+            let base = crate::util::num(toks[6]); let span = crate::util::num(toks[7]);
+            let bytes = build_image(&fs,&label,&mut rng);
+            let hint = ext_of(&label);
+            with_watchdog_secs(120,move || {
+                let mut bad: Vec<String> = Vec::new();
+                let mut n = 0; let mut mounted = 0;
+                for pos in base..(base+span).min(bytes.len()) {
+                    for v in [0u8,1,2,0x10,0x20,0x7f,0x80,0xf0,0xff] {
+                        if bytes[pos]==v { continue; }
+                        let mut b = bytes.clone(); b[pos] = v;
+                        n += 1;
+                        match catch_unwind(AssertUnwindSafe(|| consume_image(&b,Some(hint)))) {
+                            Ok(r) => { if r.starts_with("mounted") { mounted += 1; } },
+                            Err(e) => { if bad.len()<3 {
+                                let msg = if let Some(s) = e.downcast_ref::<String>() { s.clone() } else if let Some(s) = e.downcast_ref::<&str>() { s.to_string() } else { "?".to_string() };
+                                bad.push(format!("byte {} = {}: {}",pos,v,msg.replace('\n'," "))); } }
+                        }
+                    }
+                }
+                if bad.is_empty() { format!("swept variants={} mounted={}",n,mounted) } else { format!("PANICKED {}",bad.join("; ")) }
+            }).replacen("ok PANICKED","FAIL panic:",1)
         },
         "random" => {
             let n = [0usize,1,11,12,13,29,64,100,143360,116480,232960,6656*35][rng.below(10)];
